@@ -271,7 +271,8 @@ impl HistMonitor for C02 {
     fn owns_panic(&self, op: &Op) -> bool {
         // "none of these calls panics": the calls the statement names (a panicking next_id() is
         // C07's "calls within the limits complete")
-        !matches!(op, Op::NextId)
+        // a panicking clone() / save() / load() of a hand-over is C10's / C08's)
+        matches!(op, Op::Add(_) | Op::Bind(..) | Op::Put(..) | Op::Data(_) | Op::Kid(..) | Op::Kids(_))
     }
 }
 
